@@ -1,5 +1,5 @@
 From Mds Require Import Common.ExtractBase Gen.ShellTable Shell.ShellModel Shell.ShellSpec Shell.ShellSession.
 Require Extraction.
 Require Import ExtrOcamlBasic.
-Extraction "shell_model.ml" ShellModel.split ShellModel.quote ShellModel.join ShellModel.run_ops ShellModel.new_scanner
-  ShellSpec.ref_split ShellSpec.posix_words ShellSession.session_ok ShellSession.ref_rest base_types.
+Extraction "shell_model.ml" ShellModel.split ShellModel.split_from ShellModel.quote ShellModel.join ShellModel.run_ops ShellModel.run_opsx ShellModel.new_scanner
+  ShellSpec.ref_split ShellSpec.posix_words ShellSession.session_ok ShellSession.session_okx ShellSession.ref_rest base_types.
